@@ -1,7 +1,7 @@
 (* Selector/Spec.v -- the vocabulary of property C14, stated over package
    layouts and call sequences independently of the model's state.
    Definitions only. *)
-From Coq Require Import String List ZArith Bool.
+From Coq Require Import String Ascii List ZArith Bool.
 From RV Require Import Selector.Model.
 Import ListNotations.
 Open Scope string_scope.
@@ -239,10 +239,27 @@ Fixpoint timer_ready (started : bool) (ops : list op) : bool :=
 Definition offers_nothing (r : selector) : Prop :=
   modes r = [] /\ ctor_calls r = [] /\ option_names r = ["None"] /\ preselection r = "None".
 
+(* pkgname.split(".")[0] -- the top-level name under which the package lives *)
+Fixpoint top_component (s : string) : string :=
+  match s with
+  | EmptyString => EmptyString
+  | String c r => if Ascii.eqb c "."%char then EmptyString else String c (top_component r)
+  end.
+
+(* n is the dotted name of the package or of a package it is nested in:
+   "a", "a.b" and "a.b.c" for the package "a.b.c" *)
+Definition dotted_prefix (n pkgname : string) : Prop :=
+  n = pkgname \/ exists rest, pkgname = (n ++ "." ++ rest)%string.
+
+(* "there is no such package": the import machinery could not find the package
+   or one of the packages it is nested in *)
+Definition no_such_package (pkgname : string) (i : pkg_import) : Prop :=
+  exists n, i = ImportRaisesImportError true (Some n) /\ dotted_prefix n pkgname.
+
 (* importing the package fails, and not because there is no such package:
-   any exception that is not an ImportError, or an ImportError whose name is
-   neither the package nor the first component of its dotted name *)
+   an exception that is not an ImportError, an ImportError that is not a
+   ModuleNotFoundError (whatever its name), a ModuleNotFoundError without a name
+   or naming anything else *)
 Definition package_import_fault (pkgname : string) (i : pkg_import) : Prop :=
-  i = ImportRaisesOther \/
-  exists ename, i = ImportRaisesImportError ename /\
-                ename <> Some pkgname /\ ename <> Some (top_component pkgname).
+  (i = ImportRaisesOther \/ exists mnf ename, i = ImportRaisesImportError mnf ename) /\
+  ~ no_such_package pkgname i.
